@@ -358,7 +358,7 @@ func (p *Prog) argStr(ci ssa.CallInstruction, i int) string {
 	if i >= len(args) {
 		return ""
 	}
-	return p.R(ci.Parent()).E(args[i])
+	return p.R(ci.Parent()).EAt(args[i], ci)
 }
 
 // isGenerated: protobuf/gateway generated sources (decoders write every field; not hand-written logic).
